@@ -29,6 +29,9 @@ def run(ctx, prop):
     vlib.write_ndjson(cpath, cases)
     ctx.harness(binary, ["format-replay", cpath, opath])
     out = vlib.read_ndjson(opath)
+    opath_c = ctx.path("out_checked.ndjson")
+    ctx.harness(ctx.build("checked", "mvh_bin"), ["format-replay", cpath, opath_c], env={"VERIF_SEED": str(ctx.seed + 7)})
+    out += [o for o in vlib.read_ndjson(opath_c) if o["kind"] == "mismatch"]
     summ = [o for o in out if o["kind"] == "summary"][0]
     unbuildable = [o for o in out if o["kind"] == "unbuildable"]
     for o in out:
@@ -79,6 +82,27 @@ def run(ctx, prop):
             if k == 8:
                 sig["why"] = ev.get("why", "")[:200]
             ctx.violation(sig, {"index": i, "event": ev})
+    # 4. images serialized after arbitrary histories (allocate / deallocate / truncate / writes / deletes): the state machine
+    #    traces of C03 carry "serialize" events; TLC checks each image against the logged state (Trace_BinArchive!SerializeOK)
+    hpath = ctx.path("hist.ndjson")
+    ctx.harness(binary, ["sm-record", hpath, "c03", str(ctx.pick(40, 300)), str(ctx.pick(80, 150))])
+    hist = vlib.read_ndjson(hpath)
+    th = ctx.tlc("Trace_BinArchive", env={"TRACE": hpath}, workers=1, count=False, deque=True, timeout=3000)
+    hrep = th.tagged("R")
+    if len(hrep) != 1 or hrep[0]["n"] != len(hist):
+        raise vlib.ToolError("history trace not consumed")
+    nser = sum(1 for e in hist if e["op"] == "serialize")
+    if nser < 20:
+        raise vlib.ToolError("vacuous: only %d serialize events in the recorded histories" % nser)
+    for i in hrep[0]["bad"]:
+        ev = hist[i - 1]
+        if ev["op"] == "serialize":
+            ctx.violation({"dir": "impl->spec", "what": "serialize after a history", "res_ok": ev["res"].get("ok"),
+                           "has_cstr": bool(ev["post"].get("cstr")), "endian": ev["post"].get("endian")},
+                          {"index": i, "state": ev["post"], "image": ev["res"].get("v"), "history_tail": hist[max(0, i - 12):i - 1]})
+    ctx.traces += nser
+    ctx.evaluations += nser
+    ctx.extra["images_after_histories"] = nser
     nfiles = sum(1 for e in events if e.get("op") == "file")
     if rep[0]["canonical_files"] < len(GOLDEN) and not ctx.viol:
         raise vlib.ToolError("only %d of the repository's golden files are canonical according to the spec (expected >= %d): "
